@@ -535,8 +535,102 @@ func newMachine(c *Ctx, name string) *Machine {
 	case len(m.builders) == 0:
 		m.why = "no strings.Builder buffers"
 	}
+	if m.why == "" {
+		m.asciiNorm()
+	}
 	// initial state: the constant the state variable is initialised with
 	return m
+}
+
+// asciiNorm: `if c := json[i]; c < utf8.RuneSelf { char, size = rune(c), 1 } else { char, size = utf8.DecodeRuneInString(json[i:]) … }`
+// — a byte below 0x80 is its own rune, one byte wide, which is exactly what DecodeRuneInString returns for it. On the rounds that
+// decided `json[i] < 0x80` the in-place decoding is presented in the decoder's terms (rune(json[i]) = decoded rune, a size of 1 =
+// decoded width); the decision itself stays and is evaluated per character class (ASCII classes: true; U+FFFD, ill-formed: false).
+// A `rune(json[i])` on a round that has not made that decision is left as it is and is not the current character.
+func (m *Machine) asciiNorm() {
+	sm := m.sx()
+	if sm.why != "" || m.idxV == nil {
+		return
+	}
+	isASCIITest := func(cd Cond) bool {
+		b, ok := simplify(cd.T).(TBin)
+		if !ok {
+			return false
+		}
+		l, r, op := b.X, b.Y, b.Op
+		if _, lc := constInt(l); lc {
+			l, r = r, l
+			op = map[token.Token]token.Token{token.LSS: token.GTR, token.GTR: token.LSS, token.LEQ: token.GEQ, token.GEQ: token.LEQ}[op]
+		}
+		k, isK := constInt(r)
+		if !isK || !m.isCurByte(l) {
+			return false
+		}
+		switch {
+		case op == token.LSS && k == 0x80, op == token.LEQ && k == 0x7f:
+			return cd.Truth
+		case op == token.GEQ && k == 0x80, op == token.GTR && k == 0x7f:
+			return !cd.Truth
+		}
+		return false
+	}
+	var decode Term
+	for i, ip := range sm.iter {
+		ascii := false
+		var cur Term
+		for _, st := range ip.Steps {
+			if st.Kind == "cond" && isASCIITest(st.Cond) {
+				ascii = true
+				b := simplify(st.Cond.T).(TBin)
+				cur = b.X
+				if _, lc := constInt(b.X); lc {
+					cur = b.Y
+				}
+			}
+		}
+		if !ascii {
+			continue
+		}
+		ix := cur.(TIndex)
+		if decode == nil {
+			var fn *types.Func
+			for _, imp := range m.c.Types.Imports() {
+				if imp.Path() == "unicode/utf8" {
+					fn, _ = imp.Scope().Lookup("DecodeRuneInString").(*types.Func)
+				}
+			}
+			if fn == nil {
+				return
+			}
+			decode = TCall{Fun: fn, Name: fn.Name(), Args: []Term{TSlice{X: TVar{m.jsonV}, Lo: TLoop{m.idxV, sm.loop.ID}}}}
+		}
+		_ = ix
+		f := func(t Term) (Term, bool) {
+			if cv, ok := t.(TConv); ok {
+				if bt, isB := cv.To.Underlying().(*types.Basic); isB && (bt.Kind() == types.Int32 || bt.Kind() == types.Int) && m.isCurByte(cv.X) {
+					return TProj{decode, 0}, true
+				}
+			}
+			// json[i:i+1] on a round that decided the byte is ASCII: the bytes of the current character
+			if sl, ok := t.(TSlice); ok && sl.Max == nil && sl.Hi != nil && isParamTerm(sl.X, m.jsonV) && m.loopVar(sl.Lo, m.idxV) {
+				if b, ok := sl.Hi.(TBin); ok && b.Op == token.ADD {
+					one := func(x Term) bool { k, ok := constInt(x); return ok && k == 1 }
+					if (m.loopVar(b.X, m.idxV) && one(b.Y)) || (m.loopVar(b.Y, m.idxV) && one(b.X)) {
+						return TSlice{X: sl.X, Lo: sl.Lo, Hi: TBin{Op: token.ADD, X: TLoop{m.idxV, sm.loop.ID}, Y: TProj{decode, 1}}}, true
+					}
+				}
+			}
+			return nil, false
+		}
+		q := mapPath(ip, f)
+		if m.sizeV != nil {
+			if k, ok := constInt(q.Env[m.sizeV]); ok && k == 1 {
+				q.Env[m.sizeV] = TProj{decode, 1}
+			}
+		}
+		sm.iter[i] = q
+	}
+	sm.loop.Iter = sm.iter
 }
 
 // isStateType: a named unsigned-integer type of this package that has constants and is the tag type of a switch in the machines.
